@@ -76,8 +76,17 @@ def snap_pred_verdict(name: str) -> str:
     return "F"
 
 
-def expected_of(op_kind: str, mclone: MTree, typed: bool):
+def copy_name(tree_cls_name: str, name: str) -> str:
+    """Default name of Tree.copy(): "Copy of " + repr of the source tree."""
+    return f"Copy of {tree_cls_name}<{name!r}>"
+
+
+def expected_of(op_kind: str, mclone: MTree, typed: bool, name=None):
+    """name: (class name, tree name) of the committed state - the copying snapshot
+    operations also read the tree's name (it ends up in the copy's name)."""
     c = canon_model(mclone.root, typed)
+    if name is not None and op_kind in ("copy", "filtered"):
+        return (expected_of(op_kind, mclone, typed), copy_name(*name))
     if op_kind == "copy_to":
         # (kinds of the copied top nodes are the open finding C07 typed-nokind)
         if not c:
@@ -239,13 +248,16 @@ def c18_run(base_seed, index, tier, nt, *, forced=None, cfg_override=None,
         return res
     lock = locks[0]
 
-    commits = [(0, slot.model.clone())]  # (seq of release, model clone); v0 = initial state
-    st = {"in_cs": None, "pending": None, "writers_left": cfg["n_writers"]}
+    tree.name = "v0"
+    cls_name = type(tree).__name__
+    # (seq of release, model clone, (class, tree name)); v0 = initial state
+    commits = [(0, slot.model.clone(), (cls_name, "v0"))]
+    st = {"in_cs": None, "pending": None, "writers_left": cfg["n_writers"], "name": "v0"}
 
     def on_release(thread):
         if st["pending"] is not None:
             seq = sched.log("commit", len(commits))
-            commits.append((seq, st["pending"]))
+            commits.append((seq, st["pending"], (cls_name, st["pending_name"])))
             st["pending"] = None
 
     for lk in locks:
@@ -299,9 +311,11 @@ def c18_run(base_seed, index, tier, nt, *, forced=None, cfg_override=None,
                 except OSError:
                     pass
         if kind == "copy":
-            return canon_real(tree.copy(), typed)
+            cp = tree.copy()
+            return (canon_real(cp, typed), cp.name)
         if kind == "filtered":
-            return canon_names(canon_real(tree.filtered(pred), typed))
+            cp = tree.filtered(pred)
+            return (canon_names(canon_real(cp, typed)), cp.name)
         if kind == "copy_to":
             target = type(tree)("private")
             tree.copy_to(target)
@@ -347,6 +361,10 @@ def c18_run(base_seed, index, tier, nt, *, forced=None, cfg_override=None,
                 with tree:
                     enter_cs(name)
                     sched.log("cs-enter", name)
+                    # the tree's name is part of its state (copies are named after it)
+                    st["name"] = f"v{tid}.{cs}"
+                    tree.name = st["name"]
+                    sched.pause()
                     run_step(world, {"id": 100000 + tid * 1000 + cs * 10, "k": "add",
                                      "parent": "T0", "api": "add",
                                      "src": {"data": f"s:m{tid}.{cs}.x"},
@@ -370,7 +388,7 @@ def c18_run(base_seed, index, tier, nt, *, forced=None, cfg_override=None,
                                 got = do_snapshot(kind)
                         except ValueError:
                             got = ("EXC", "ValueError")
-                        exp = expected_of(kind, slot.model, typed)
+                        exp = expected_of(kind, slot.model, typed, (cls_name, st["name"]))
                         if got != exp and not st.get("invalid"):
                             violations.append(("nested-snapshot",
                                                f"{kind} inside the owner's `with tree:` differs "
@@ -380,6 +398,7 @@ def c18_run(base_seed, index, tier, nt, *, forced=None, cfg_override=None,
                                      "src": {"data": f"s:m{tid}.{cs}.y"},
                                      **({"kind": "k0"} if typed else {})}, index_every=False)
                     st["pending"] = slot.model.clone()
+                    st["pending_name"] = st["name"]
                     st["in_cs"] = None
                     sched.log("cs-exit", name)
                 sched.pause()
@@ -508,7 +527,8 @@ def c18_run(base_seed, index, tier, nt, *, forced=None, cfg_override=None,
             res.faults_fired[cb] = res.faults_fired.get(cb, 0) + 1
             continue
         if h["exc"] is not None and not any(
-                expected_of(h["op"], commits[v][1], typed) == ("EXC", type(h["exc"]).__name__)
+                expected_of(h["op"], commits[v][1], typed, commits[v][2])
+                == ("EXC", type(h["exc"]).__name__)
                 for v in range(lo, hi + 1)):
             violations.append(("spurious-exception",
                                f"{h['thread']} {h['op']} raised {type(h['exc']).__name__}: "
@@ -519,7 +539,7 @@ def c18_run(base_seed, index, tier, nt, *, forced=None, cfg_override=None,
         if h["exc"] is not None:
             got = ("EXC", type(h["exc"]).__name__)
         for v in range(lo, hi + 1):
-            if expected_of(h["op"], commits[v][1], typed) == got:
+            if expected_of(h["op"], commits[v][1], typed, commits[v][2]) == got:
                 ok = True
                 break
         if ok:
